@@ -139,6 +139,8 @@ structure J where
   recovered : Bool := false         -- a crash + recovery happened in this case
   tainted : List Bytes := []        -- tables possibly changed by a statement that returned an error
   stopped : Bool := false           -- recovery failed: nothing more to judge
+  mustNotExist : List Bytes := []   -- tables whose CREATE TABLE returned an error
+  prefixes : List (Bytes × List (List Tuple.Val)) := []   -- row-prefix states of refused multi-row statements
 
 def phase (j : J) : String := if j.recovered then "after-recovery" else "live"
 
@@ -171,11 +173,18 @@ def applyStmt (j : J) (op : String) (stmt : Stmt) (outs : List String) : J × Li
         [vio j s!"db:valid-statement-refused:{phase j}" s!"got=[{out}] op=[{short}]"])
   | none =>
     if out == "ok" then (j, [vio j "db:invalid-statement-accepted" s!"op=[{short}]"])
-    else ({ j with tainted := table :: j.tainted }, [])
+    else
+      let isCreate := match stmt with | .createTable _ _ => true | _ => false
+      ({ j with tainted := table :: j.tainted, prefixes := j.prefixes ++ prefixStates j.sdb stmt,
+                mustNotExist := if isCreate && (findTable j.sdb table).isNone then table :: j.mustNotExist else j.mustNotExist }, [])
 
 def judgeSelect (j : J) (table : Bytes) (outs : List String) : J × List String :=
   match findTable j.sdb table with
-  | none => (j, [])
+  | none =>
+    if j.mustNotExist.contains table && outs != ["err tableNotExist"] then
+      ({ j with mustNotExist := j.mustNotExist.filter (· != table) },
+        [vio j "db:failed-create-left-table" s!"table={hexOrDash table} got=[{(" | ".intercalate outs).take 200}]"])
+    else (j, [])
   | some t =>
     match outs with
     | [sch, rowsLine] =>
@@ -193,7 +202,9 @@ def judgeSelect (j : J) (table : Bytes) (outs : List String) : J × List String 
           | some old => if old == id then none else some s!"row-id-changed {old}->{id}"
           | none => if j.seenIds.contains id then some s!"row-id-reused {id}" else none
       let v1 := if valsOk then [] else
-        if tainted then [vio j "db:failed-statement-changed-table" s!"table={hexOrDash table} want=[{(showRows (t.rows.map fun r => (0, r.vals))).take 300}] got=[{(rowsLine.take 300).toString}]"]
+        if tainted && (j.prefixes.any fun p => p.1 == table && p.2 == got.map (·.2)) then
+          [vio j "db:failed-statement-applied-row-prefix" s!"table={hexOrDash table} want=[{(showRows (t.rows.map fun r => (0, r.vals))).take 200}] got=[{(rowsLine.take 200).toString}]"]
+        else if tainted then [vio j "db:failed-statement-changed-table" s!"table={hexOrDash table} want=[{(showRows (t.rows.map fun r => (0, r.vals))).take 300}] got=[{(rowsLine.take 300).toString}]"]
         else [vio j s!"db:contents-differ:{phase j}" s!"table={hexOrDash table} want=[{(showRows (t.rows.map fun r => (0, r.vals))).take 300}] got=[{(rowsLine.take 300).toString}]"]
       let v2 := if asc then [] else [vio j s!"db:row-ids-not-increasing:{phase j}" s!"table={hexOrDash table} ids={ids}"]
       let v3 := idProblems.map fun p => vio j s!"db:row-id:{phase j}" s!"table={hexOrDash table} {p}"
@@ -201,7 +212,8 @@ def judgeSelect (j : J) (table : Bytes) (outs : List String) : J × List String 
       let newRows : List SRow := if valsOk then (t.rows.zip ids).map (fun (r, id) => { r with id := some id })
         else got.map fun g => ⟨some g.1, g.2⟩
       let sdb' := j.sdb.map fun x => if x.name == table then { x with rows := newRows } else x
-      ({ j with sdb := sdb', seenIds := (j.seenIds ++ ids).eraseDups, tainted := j.tainted.filter (· != table) }, v0 ++ v1 ++ v2 ++ v3)
+      ({ j with sdb := sdb', seenIds := (j.seenIds ++ ids).eraseDups, tainted := j.tainted.filter (· != table),
+                prefixes := j.prefixes.filter (·.1 != table) }, v0 ++ v1 ++ v2 ++ v3)
     | [o] =>
       if o.startsWith "err" || o == "panic" || o == "hang" then
         ({ j with stopped := o != "err tableNotExist" }, [vio j s!"db:select-failed:{phase j}" s!"table={hexOrDash table} got=[{o}]"])
@@ -250,7 +262,14 @@ def judgeLine (j : J) (op : String) (outs : List String) : J × List String :=
       else ({ j with tainted := tbl :: j.tainted }, [vio j s!"db:valid-statement-refused:{phase j}" s!"got=[{out}] op=[{short}]"])
     | none =>
       if out == "ok" then (j, [vio j "db:invalid-statement-accepted" s!"op=[{short}]"])
-      else ({ j with tainted := tbl :: j.tainted }, [])
+      else
+        let pre : List (Bytes × List (List Tuple.Val)) := match findTable j.sdb tbl with
+          | none => []
+          | some tb =>
+            let vals := rows.map fun r => rowOf tb cs r
+            let good := (vals.takeWhile (·.isSome)).filterMap id
+            (List.range good.length).map fun k => (tbl, tb.rows.map (·.vals) ++ good.take (k + 1))
+        ({ j with tainted := tbl :: j.tainted, prefixes := j.prefixes ++ pre }, [])
   | ["select", table] => judgeSelect j ((bytesOfHex table).getD []) outs
   | ["roots"] => judgeRoots j outs
   | ["recover"] =>
